@@ -485,7 +485,12 @@ def bounded(b):
                     bad_tm = "no re-imported part has a tempo mark, written %r" % (w_tm,)
                 b.case("import/tempo_marks_at_their_positions_with_their_values", bad_tm is None, case, bad_tm or "")
             # each part keeps its own time signatures where the mode keeps the parts apart (0, 1, 3: one part per part)
-            if mode in (0, 1, 3) and len(back.parts) == len(score.parts) and ana == "shift":
+            # (the parts of a score share their barlines: a score in which one part opens with an upbeat bar and another does not is not
+            # something a MIDI file - one meter track for all - can hold apart, and is left out of this clause)
+            def _first_bar(p_):
+                ms_ = sorted((m_.start.t, m_.end.t) for m_ in p_.iter_all(sc.Measure))
+                return (O.quarter_pos(p_, ms_[0][1]) - O.quarter_pos(p_, ms_[0][0])) if ms_ else None
+            if mode in (0, 1, 3) and len(back.parts) == len(score.parts) and ana == "shift" and len({_first_bar(p_) for p_ in score.parts}) == 1:
                 def tsl(p):
                     o = p.first_point.t
                     return sorted((round(float(O.quarter_pos(p, t.start.t) - O.quarter_pos(p, o)), 6), int(t.beats), int(t.beat_type)) for t in p.iter_all(sc.TimeSignature))
